@@ -421,6 +421,14 @@ func genMaps(b *builder, o WorldOpts) {
 			if rng.Intn(3) == 0 {
 				addSubnet(b, "ec", l, fmt.Sprintf("198.51.%d.128/25", (i+1)%len(w.Locs)+1))
 			}
+			if rng.Intn(2) == 0 { // a longer prefix with the same start and the same location
+				addSubnet(b, "ec", l, fmt.Sprintf("198.51.%d.0/26", i+1))
+			}
+		}
+		if len(w.Locs) >= 2 && rng.Intn(2) == 0 {
+			// an enclosing prefix whose location equals that of one of the /24s inside it (which follows a sibling of
+			// another location)
+			addSubnet(b, "ec", w.Locs[1], "198.51.0.0/16")
 		}
 		for _, bind := range pick(rng, []string{"*.example.com", "example.com", "*.", "*.org", "*.www.example.com", "a.example.com"}, 1+rng.Intn(3)) {
 			w.Maps.ECS[bind] = "ec"
